@@ -73,6 +73,10 @@ func (cfg *Config) NewForwarder(parentLogger logger.Logger, args base.ChunkConsu
 
 //nolint:revive
 func (cfg *Config) VerifyConfig(schema base.LogSchema) error {
+	if _, err := schema.CreateFieldLocators(cfg.Serialization.HiddenFields); err != nil {
+		return fmt.Errorf(".serialization.hiddenFields%w", err)
+	}
+
 	if len(cfg.Upstream.Address) == 0 {
 		return errors.New("expected a valid datadog api address")
 	}
